@@ -1,7 +1,348 @@
-"""Environment models: text files, JSON, INI, file system, hashing (each lists its contract)."""
-from . import models
-from .models import func_model, method_model, engine_type
+"""Environment models: text files, JSON, INI, file system, hashing.  Each stub states its contract.
+
+JSON   json.dump / dumps walk the object exactly like the stdlib encoder decides (dict / list / tuple /
+       str / int / bool / None / float leaves, TypeError for anything else, keys coerced or refused) and
+       produce a DocText: the ordered skeleton plus the *normalised formatting arguments of the call*
+       (indent, separators, sort_keys resolved the way CPython resolves them).  Two DocTexts are equal
+       iff formatting and ordered skeleton are equal - which is byte equality of the real output for
+       JSON values (RFC 8259 round trip of str/int/bool/None).  json.load / loads of a DocText return
+       a deep copy as plain dicts / lists.  Concrete text goes through the real json module.
+"""
+import io
+import json
+import os
+
+from . import models, sstr
+from .models import func_model, method_model, engine_type, contains_sym, FUNC_MODELS
+from .sstr import SymStr, mk
+from .terms import And
+from .values import SymBool, SymInt, SymFloat, SYM, mkbool, bterm, pytype
 
 
 def install(I):
     pass
+
+
+# ---------------------------------------------------------------------------------------------------
+
+@engine_type
+class DocText(object):
+    """text of a serialised document that contains symbolic leaves"""
+
+    def __init__(self, kind, doc, fmt):
+        self.kind = kind
+        self.doc = doc
+        self.fmt = fmt
+
+    def psx_symbolic(self):
+        return True
+
+    def psx_eq(self, other):
+        from .interp import current
+        I = current()
+        if isinstance(other, DocText):
+            if self.kind != other.kind or self.fmt != other.fmt:
+                return False
+            return ordered_eq(I, self.doc, other.doc)
+        if isinstance(other, (str, SymStr)):
+            I.unsupported("comparison of a symbolic document with plain text")
+        return False
+
+    def psx_truth(self):
+        return True
+
+    def __repr__(self):
+        return "<DocText %s>" % self.kind
+
+
+def ordered_eq(I, a, b):
+    """structural equality that also compares the order of dict items (= byte equality of the rendering)"""
+    if isinstance(a, dict) and isinstance(b, dict):
+        if list(a.keys()) != list(b.keys()):
+            return False
+        parts = [ordered_eq(I, a[k], b[k]) for k in a]
+    elif isinstance(a, list) and isinstance(b, list):
+        if len(a) != len(b):
+            return False
+        parts = [ordered_eq(I, x, y) for x, y in zip(a, b)]
+    else:
+        if isinstance(a, (dict, list)) or isinstance(b, (dict, list)):
+            return False
+        # JSON distinguishes true/1 and "1"/1
+        ta, tb = pytype(a), pytype(b)
+        if (ta is bool) != (tb is bool) or (issubclass(ta, str) != issubclass(tb, str)) or (a is None) != (b is None):
+            return False
+        if (ta is float) != (tb is float):
+            return False
+        parts = [I.eq(a, b)]
+    terms = []
+    for p in parts:
+        if p is False:
+            return False
+        if p is True:
+            continue
+        terms.append(bterm(p))
+    return mkbool(And(*terms))
+
+
+@engine_type
+class SymIO(object):
+    """in-memory text file (stands in for io.StringIO): a list of written chunks"""
+
+    def __init__(self, initial=None):
+        self.chunks = []
+        if initial:
+            self.chunks.append(initial)
+        self.pos_at_start = True
+        self.closed = False
+
+    def psx_symbolic(self):
+        return any(not isinstance(c, str) for c in self.chunks)
+
+    def write(self, s):
+        from .interp import current
+        I = current()
+        if not isinstance(s, (str, SymStr, DocText)):
+            I.raise_(TypeError("string argument expected, got '%s'" % pytype(s).__name__))
+        self.chunks.append(s)
+        self.pos_at_start = False
+        return None
+
+    def seek(self, pos, whence=0):
+        from .interp import current
+        if pos != 0 or whence != 0:
+            current().unsupported("seek to a position other than the start")
+        self.pos_at_start = True
+        return 0
+
+    def seekable(self):
+        return True
+
+    def readable(self):
+        return True
+
+    def writable(self):
+        return True
+
+    def content(self):
+        from .interp import current
+        I = current()
+        if not self.chunks:
+            return ""
+        if all(isinstance(c, str) for c in self.chunks):
+            return "".join(self.chunks)
+        if len(self.chunks) == 1:
+            return self.chunks[0]
+        if all(isinstance(c, (str, SymStr)) for c in self.chunks):
+            return mk(self.chunks)
+        I.unsupported("text file holding a structured document mixed with other text")
+
+    def read(self, n=-1):
+        from .interp import current
+        if n not in (-1, None):
+            current().unsupported("partial read of an in-memory text file")
+        if not self.pos_at_start:
+            return ""
+        self.pos_at_start = False
+        return self.content()
+
+    def getvalue(self):
+        return self.content()
+
+    def readlines(self):
+        from .interp import current
+        I = current()
+        c = self.read()
+        if isinstance(c, str):
+            return io.StringIO(c).readlines()
+        if isinstance(c, LinesText):
+            return list(c.lines)
+        I.unsupported("readlines of a symbolic text")
+
+    def close(self):
+        self.closed = True
+
+    def flush(self):
+        pass
+
+    def __enter__(self):
+        return self
+
+    def __exit__(self, *a):
+        self.close()
+        return False
+
+
+@engine_type
+class LinesText(object):
+    """text made of whole lines (for the line-based .discinfo format): list of str/SymStr, each ending in newline
+    except possibly the last"""
+
+    def __init__(self, lines):
+        self.lines = lines
+
+    def psx_symbolic(self):
+        return True
+
+    def psx_eq(self, other):
+        from .interp import current
+        I = current()
+        if isinstance(other, LinesText):
+            return I.eq(self.lines, other.lines)
+        I.unsupported("comparison of line text with plain text")
+
+
+@func_model(io.StringIO)
+def _stringio(I, args, kwargs):
+    return SymIO(args[0] if args else None)
+
+
+# ---------------------------------------------------------------------------------------------------
+# JSON
+
+def _fmt_of(I, kwargs):
+    kw = dict(kwargs)
+    indent = kw.pop("indent", None)
+    seps = kw.pop("separators", None)
+    sort_keys = kw.pop("sort_keys", False)
+    ensure_ascii = kw.pop("ensure_ascii", True)
+    skipkeys = kw.pop("skipkeys", False)
+    allow_nan = kw.pop("allow_nan", True)
+    kw.pop("check_circular", None)
+    default = kw.pop("default", None)
+    cls = kw.pop("cls", None)
+    if kw:
+        I.raise_(TypeError("JSONEncoder.__init__() got an unexpected keyword argument '%s'" % list(kw)[0]))
+    if default is not None or cls is not None or skipkeys:
+        I.unsupported("json encoder customisation (default/cls/skipkeys)")
+    if contains_sym([indent, seps, sort_keys, ensure_ascii]):
+        I.unsupported("symbolic JSON formatting arguments")
+    if isinstance(indent, int) and not isinstance(indent, bool):
+        indent_s = " " * indent if indent > 0 else ""
+    elif isinstance(indent, str) or indent is None:
+        indent_s = indent
+    else:
+        I.raise_(TypeError("bad indent"))
+    if seps is None:
+        item_sep, key_sep = (", ", ": ") if indent is None else (",", ": ")
+    else:
+        item_sep, key_sep = seps
+    return {"indent": indent_s, "item_sep": item_sep, "key_sep": key_sep, "ensure_ascii": bool(ensure_ascii)}, bool(sort_keys), bool(allow_nan)
+
+
+def to_skeleton(I, obj, sort_keys, allow_nan=True):
+    if obj is None or isinstance(obj, (bool, SymBool, SymInt, SymStr, str)):
+        return obj
+    if isinstance(obj, int):
+        return int(obj) if not isinstance(obj, bool) else obj
+    if isinstance(obj, float):
+        if obj != obj or obj in (float("inf"), float("-inf")):
+            if not allow_nan:
+                I.raise_(ValueError("Out of range float values are not JSON compliant"))
+        return obj
+    if isinstance(obj, SymFloat):
+        I.unsupported("symbolic float in a JSON document")
+    if isinstance(obj, (list, tuple)):
+        return [to_skeleton(I, x, sort_keys, allow_nan) for x in obj]
+    if isinstance(obj, dict):
+        items = []
+        for k, v in obj.items():
+            if isinstance(k, str):
+                kk = k
+            elif isinstance(k, bool):
+                kk = "true" if k else "false"
+            elif k is None:
+                kk = "null"
+            elif isinstance(k, int):
+                kk = str(k)
+            elif isinstance(k, float):
+                kk = repr(k)
+            else:
+                I.raise_(TypeError("keys must be str, int, float, bool or None, not %s" % type(k).__name__))
+            items.append((k, kk, v))
+        if sort_keys:
+            try:
+                items = I.native(sorted, items, key=lambda it: it[0])
+            except TypeError as e:
+                raise
+        out = {}
+        for k, kk, v in items:
+            out[kk] = to_skeleton(I, v, sort_keys, allow_nan)
+        return out
+    I.raise_(TypeError("Object of type %s is not JSON serializable" % pytype(obj).__name__))
+
+
+def from_skeleton(x):
+    if isinstance(x, dict):
+        return dict((k, from_skeleton(v)) for k, v in x.items())
+    if isinstance(x, list):
+        return [from_skeleton(v) for v in x]
+    return x
+
+
+def _dumps(I, obj, kwargs):
+    fmt, sort_keys, allow_nan = _fmt_of(I, kwargs)
+    if not contains_sym(obj, depth=64):
+        return I.native(json.dumps, obj, **kwargs)
+    skel = to_skeleton(I, obj, sort_keys, allow_nan)
+    return DocText("json", skel, fmt)
+
+
+@func_model(json.dumps)
+def _json_dumps(I, args, kwargs):
+    if len(args) != 1:
+        I.raise_(TypeError("dumps() takes 1 positional argument"))
+    return _dumps(I, args[0], kwargs)
+
+
+@func_model(json.dump)
+def _json_dump(I, args, kwargs):
+    if len(args) != 2:
+        I.raise_(TypeError("dump() takes 2 positional arguments"))
+    obj, fp = args
+    text = _dumps(I, obj, kwargs)
+    w = I.get_attr(fp, "write")
+    if isinstance(text, DocText) and not isinstance(fp, SymIO):
+        # a real file cannot hold symbolic content; what matters to the checks is that *something* was written
+        text = "<document with symbolic content>"
+    I.call(w, [text], {})
+    return None
+
+
+def _loads(I, s, kwargs):
+    if isinstance(s, DocText):
+        if s.kind != "json":
+            I.raise_(json.JSONDecodeError("Expecting value", "<ini document>", 0))
+        if kwargs:
+            I.unsupported("json.load keyword arguments on a symbolic document")
+        return from_skeleton(s.doc)
+    if isinstance(s, SymStr):
+        I.unsupported("json.loads of free-form symbolic text")
+    if isinstance(s, LinesText):
+        I.raise_(json.JSONDecodeError("Expecting value", "<lines>", 0))
+    return I.native(json.loads, s, **kwargs)
+
+
+@func_model(json.loads)
+def _json_loads(I, args, kwargs):
+    return _loads(I, args[0], kwargs)
+
+
+@func_model(json.load)
+def _json_load(I, args, kwargs):
+    fp = args[0]
+    r = I.call(I.get_attr(fp, "read"), [], {})
+    return _loads(I, r, kwargs)
+
+
+# ---------------------------------------------------------------------------------------------------
+# files
+
+@func_model(open)
+def _open(I, args, kwargs):
+    if contains_sym(args) or contains_sym(kwargs):
+        I.unsupported("open() with a symbolic path")
+    fs = I.options.get("fs")
+    if fs is not None:
+        return fs.open(I, *args, **kwargs)
+    return I.native(open, *args, **kwargs)
